@@ -814,7 +814,13 @@ func (l *LineWrapper) WrapParagraph(config WrapConfig, maxWidth int, paragraph [
 			_, _, hasSecond := runs.Peek()
 			if hasFirst && !hasSecond {
 				if firstRun.Advance.Ceil() <= maxWidth {
-					return l.scratch.singleRunParagraph(firstRun), 0
+					lines := l.scratch.singleRunParagraph(firstRun)
+					// Post-process the line like [postProcessLine] does for the general case.
+					computeBidiOrdering(config.Direction, lines[0])
+					if !config.DisableTrailingWhitespaceTrim {
+						trimTrailingWhitespace(config.Direction, lines[0])
+					}
+					return lines, 0
 				}
 			}
 		}
@@ -920,43 +926,53 @@ func computeBidiOrdering(dir di.Direction, finalLine Line) {
 	}
 }
 
+// trimTrailingWhitespace zeroes the advance of the glyph that is visually last
+// on the line (with respect to the paragraph direction [dir]) if it is whitespace.
+// The [VisualIndex] of the runs in [finalLine] must have been resolved.
+func trimTrailingWhitespace(dir di.Direction, finalLine Line) {
+	if len(finalLine) == 0 {
+		return
+	}
+	// Here we find the last visual run in the line.
+	goalIdx := len(finalLine) - 1
+	if dir.Progression() == di.TowardTopLeft {
+		goalIdx = 0
+	}
+	for logicalIdx, run := range finalLine {
+		if run.VisualIndex == int32(goalIdx) {
+			goalIdx = logicalIdx
+			break
+		}
+	}
+	// This next block locates the first/last visual glyph on the line and
+	// zeroes its advance if it is whitespace.
+	finalVisualRun := &finalLine[goalIdx]
+	var finalVisualGlyph *Glyph
+	if L := len(finalVisualRun.Glyphs); L > 0 {
+		if dir.Progression() == di.FromTopLeft {
+			finalVisualGlyph = &finalVisualRun.Glyphs[L-1]
+		} else {
+			finalVisualGlyph = &finalVisualRun.Glyphs[0]
+		}
+
+		if finalVisualRun.Direction.IsVertical() {
+			if finalVisualGlyph.Height == 0 {
+				finalVisualGlyph.YAdvance = 0
+			}
+		} else { // horizontal
+			if finalVisualGlyph.Width == 0 {
+				finalVisualGlyph.XAdvance = 0
+			}
+		}
+		finalVisualRun.RecomputeAdvance()
+	}
+}
+
 func (l *LineWrapper) postProcessLine(finalLine Line, done bool) (WrappedLine, bool) {
 	if len(finalLine) > 0 {
 		computeBidiOrdering(l.config.Direction, finalLine)
 		if !l.config.DisableTrailingWhitespaceTrim {
-			// Here we find the last visual run in the line.
-			goalIdx := len(finalLine) - 1
-			if l.config.Direction.Progression() == di.TowardTopLeft {
-				goalIdx = 0
-			}
-			for logicalIdx, run := range finalLine {
-				if run.VisualIndex == int32(goalIdx) {
-					goalIdx = logicalIdx
-					break
-				}
-			}
-			// This next block locates the first/last visual glyph on the line and
-			// zeroes its advance if it is whitespace.
-			finalVisualRun := &finalLine[goalIdx]
-			var finalVisualGlyph *Glyph
-			if L := len(finalVisualRun.Glyphs); L > 0 {
-				if l.config.Direction.Progression() == di.FromTopLeft {
-					finalVisualGlyph = &finalVisualRun.Glyphs[L-1]
-				} else {
-					finalVisualGlyph = &finalVisualRun.Glyphs[0]
-				}
-
-				if finalVisualRun.Direction.IsVertical() {
-					if finalVisualGlyph.Height == 0 {
-						finalVisualGlyph.YAdvance = 0
-					}
-				} else { // horizontal
-					if finalVisualGlyph.Width == 0 {
-						finalVisualGlyph.XAdvance = 0
-					}
-				}
-				finalVisualRun.RecomputeAdvance()
-			}
+			trimTrailingWhitespace(l.config.Direction, finalLine)
 		}
 
 		finalLogicalRun := finalLine[len(finalLine)-1]
